@@ -83,7 +83,9 @@ type Real struct {
 func lines(t string) []astisub.Line {
 	var ls []astisub.Line
 	for _, s := range strings.Split(t, "\n") {
-		ls = append(ls, astisub.Line{Items: []astisub.LineItem{{Text: s}}})
+		// every run carries a non-zero inline timestamp and its own inline style object: content that list
+		// operations must leave alone (ContentSnap sees both)
+		ls = append(ls, astisub.Line{VoiceName: "v", Items: []astisub.LineItem{{Text: s, StartAt: 1234567 * time.Nanosecond, InlineStyle: &astisub.StyleAttributes{SRTItalics: true}}}})
 	}
 	return ls
 }
